@@ -98,9 +98,13 @@ def _rv(f, rv):
     return rv['k']
 
 
+SITE_META = {}     # key -> {'kind': 'E'|'C'|'R', 'label': .., 'callee': path or None}   (filled by rule_sites)
+
+
 def rule_sites(prog, scope):
     """(key, fn, bb, span) for every Error/Lint construction and every call of a function of `scope` made from a function of `scope`."""
     out = []
+    SITE_META.clear()
     crates = getattr(scope, 'crates', RULE_CRATES)
     fns = [f for f in prog.fns.values() if f.crate.tag in crates and scope(f)]
     names = {f.path for f in fns}
@@ -114,6 +118,7 @@ def rule_sites(prog, scope):
                 n = cnt.get(k, 0)
                 cnt[k] = n + 1
                 out.append(('%s|%s::%s|#%d' % (f.path, kind, a['rv']['v'], n), f, a['bb'], a['span']))
+                SITE_META[out[-1][0]] = {'kind': 'E', 'label': '%s::%s' % (kind, a['rv']['v']), 'callee': None}
         # predicates (closures / functions returning bool, e.g. the conditions given to filter / any / find): every way of
         # producing the result, with its own guards, is a site of its own; the value is part of the key
         all_ret = getattr(scope, 'all_returns', False) and f.local_ty(0) not in ('()', '!')
@@ -132,6 +137,7 @@ def rule_sites(prog, scope):
                 cnt[k] = n + 1
                 shown = val if len(val) <= 160 else '%s~%s' % (val[:160], hashlib.sha1(val.encode()).hexdigest()[:10])    # long values: prefix + digest of the whole
                 out.append(('%s|returns %s|#%d' % (f.path, shown, n), f, bbv, f.span))
+                SITE_META[out[-1][0]] = {'kind': 'R', 'label': 'returns %s' % shown, 'callee': None}
         extra = getattr(scope, 'extra_calls', ())
         calls = [c for c in f.calls() if (((c.f.get('res') or '') in names and c.f.get('res') != f.path) or c.name() in extra) and not f.blocks[c.bb].get('cleanup')]
         calls.sort(key=lambda c: (c.span.cline, c.span.line, c.bb))
@@ -148,6 +154,7 @@ def rule_sites(prog, scope):
             n = cnt.get(k, 0)
             cnt[k] = n + 1
             out.append(('%s|call %s%s|#%d' % (f.path, nm, targ, n), f, c.bb, c.span))
+            SITE_META[out[-1][0]] = {'kind': 'C', 'label': 'call %s%s' % (nm, targ), 'callee': (c.f.get('res') if (c.f.get('res') or '') in names else None)}
     return out
 
 
@@ -212,15 +219,19 @@ def evaluate(rule, prog, scope, ledger_name, floor):
         return
     led = load(ledger_name)['sites']
     seen = set()
+    now = {}
+    findings = []
+    oks = []
     for key, f, bb, span in rule_sites(prog, scope):
         seen.add(key)
         gs = guard_set(prog, f, bb)
+        now[key] = {'guards': gs, 'fn': f.path, 'meta': dict(SITE_META.get(key, {})), 'span': span}
         if key not in led:
-            rule.finding('unrecorded-rule-site:%s' % key, span, 'a diagnostic / validator call that is not in the precondition ledger (%s); its conditions are %s' % (key, gs))
+            findings.append(('unrecorded-rule-site:%s' % key, span, 'a diagnostic / validator call that is not in the precondition ledger (%s); its conditions are %s' % (key, gs)))
             continue
         want = led[key]['guards']
         if gs == want:
-            rule.ok(key, '; '.join(gs) if gs else 'unconditional')
+            oks.append((key, '; '.join(gs) if gs else 'unconditional'))
         else:
             extra = [g for g in gs if g not in want]
             missing = [g for g in want if g not in gs]
@@ -229,8 +240,65 @@ def evaluate(rule, prog, scope, ledger_name, floor):
                 what.append('additionally requires %s (the rule now applies in fewer cases)' % extra)
             if missing:
                 what.append('no longer requires %s (the rule now applies in more or other cases)' % missing)
-            rule.finding('rule-precondition-changed:%s' % key, span, '%s %s' % (key.split('|', 1)[1], ' and '.join(what)))
+            findings.append(('rule-precondition-changed:%s' % key, span, '%s %s' % (key.split('|', 1)[1], ' and '.join(what))))
     for key in led:
         if key not in seen:
-            rule.finding('rule-site-removed:%s' % key, '-', 'the recorded diagnostic / validator call %s no longer exists: that language rule (or that application of it) is gone' % key)
+            findings.append(('rule-site-removed:%s' % key, '-', 'the recorded diagnostic / validator call %s no longer exists: that language rule (or that application of it) is gone' % key))
+    if findings and not is_decision_ledger(scope):
+        # The sites differ from the ledger. Before reporting, see whether the *rules* differ: a diagnostic that moved into (or out of)
+        # a helper, or whose function was renamed, is the same rule as long as the conditions that lead to it - its own plus those of the
+        # calls that reach it - are the same. Compare the multisets of (diagnostic, effective conditions).
+        m_old = _effective(_old_sites(led))
+        m_now = _effective({k: {'guards': v['guards'], 'fn': v['fn'], 'kind': v['meta'].get('kind'), 'label': v['meta'].get('label'), 'callee': v['meta'].get('callee')} for k, v in now.items()})
+        if m_old == m_now:
+            for key, d in oks:
+                rule.ok(key, d)
+            rule.ok('moved-sites', 'the sites differ from the ledger but every diagnostic is produced under the same effective conditions (moved into / out of a helper, or renamed): %d site difference(s) reconciled' % len(findings))
+            rule.floor(floor, 'rule sites')
+            return
+    for key, d in oks:
+        rule.ok(key, d)
+    for k, sp, txt in findings:
+        rule.finding(k, sp, txt)
     rule.floor(floor, 'rule sites')
+
+
+def _old_sites(led):
+    out = {}
+    fns = {k.split('|')[0] for k in led}
+    for k, v in led.items():
+        parts = k.split('|')
+        fn, label = parts[0], parts[1]
+        kind = 'E' if re.match(r'^(Error|Lint)::', label) else ('C' if label.startswith('call ') else 'R')
+        callee = v.get('callee')
+        if kind == 'C' and callee is None:
+            nm = re.sub(r'<.*$', '', label[5:]).split('(')[0]
+            cands = [x for x in fns if re.sub(r'::<.*?>', '', x).endswith('::' + nm)]
+            callee = cands[0] if len(cands) == 1 else None
+        out[k] = {'guards': v['guards'], 'fn': fn, 'kind': kind, 'label': label, 'callee': callee}
+    return out
+
+
+def _effective(sites):
+    """multiset (as a sorted list) of (label, effective guards) of the leaf sites: diagnostics and predicate returns, with the conditions of
+    the in-scope calls that reach their function unioned in (all caller chains, depth <= 3)."""
+    callers = {}
+    for k, v in sites.items():
+        if v.get('kind') == 'C' and v.get('callee'):
+            callers.setdefault(v['callee'], []).append(v)
+
+    def chains(fn, depth, seen):
+        cs = [c for c in callers.get(fn, []) if c['fn'] not in seen]
+        if not cs or depth == 0:
+            return [frozenset()]
+        out = []
+        for c in cs:
+            for up in chains(c['fn'], depth - 1, seen | {fn}):
+                out.append(frozenset(c['guards']) | up)
+        return out
+    ms = []
+    for k, v in sites.items():
+        if v.get('kind') in ('E', 'R'):
+            for up in chains(v['fn'], 7, frozenset()):
+                ms.append((v['label'], tuple(sorted(frozenset(v['guards']) | up))))
+    return sorted(ms)
